@@ -199,6 +199,10 @@ func (w *webhookExecutor) Call(webhookRequest api.WebhookRequest, webhookRespons
 	if strictErrors, err := kjson.UnmarshalStrict(responseBody, webhookResponse); err != nil {
 		return fmt.Errorf("can't unmarshal webhookResponse: %w", err)
 	} else if w.shouldReportStrictErrors() {
+		if len(strictErrors) == 0 {
+			// Strict mode only rejects responses that actually have strict errors.
+			return nil
+		}
 		return fmt.Errorf("strict validation failed for webkookResponse: %w", utilerrors.NewAggregate(strictErrors))
 	}
 	return nil
